@@ -522,7 +522,7 @@ def extract_linear_coefficient(expr: Expression, var: Variable) -> float:
 
 def _extract_coefficient_impl(expr: Expression, var: Variable) -> float:
     """Recursive coefficient extraction."""
-    from optyx.core.vectors import LinearCombination, VectorSum
+    from optyx.core.vectors import LinearCombination, VectorPowerSum, VectorSum
 
     # Constant - contributes 0 to variable coefficient
     if isinstance(expr, Constant):
@@ -555,6 +555,14 @@ def _extract_coefficient_impl(expr: Expression, var: Variable) -> float:
         for v in expr.vector._variables:
             if v.name == var.name:
                 return 1.0
+        return 0.0
+
+    # VectorPowerSum is linear only as sum(x ** 1) (= sum(x)) or sum(x ** 0) (= n)
+    if isinstance(expr, VectorPowerSum):
+        if expr.power == 1:
+            for v in expr.vector._variables:
+                if v.name == var.name:
+                    return 1.0
         return 0.0
 
     # Binary operations
@@ -648,7 +656,7 @@ def extract_constant_term(expr: Expression) -> float:
 
 def _extract_constant_impl(expr: Expression) -> float:
     """Recursive constant term extraction."""
-    from optyx.core.vectors import LinearCombination, VectorSum
+    from optyx.core.vectors import LinearCombination, VectorPowerSum, VectorSum
 
     if isinstance(expr, Constant):
         return float(expr.value)
@@ -659,6 +667,9 @@ def _extract_constant_impl(expr: Expression) -> float:
     # Sums of plain variables have no constant term (purely linear)
     if isinstance(expr, VectorSum):
         return 0.0
+    # sum(x ** 0) is the constant n; sum(x ** 1) has no constant term
+    if isinstance(expr, VectorPowerSum):
+        return float(len(expr.vector._variables)) if expr.power == 0 else 0.0
     if isinstance(expr, LinearCombination):
         if hasattr(expr.vector, "_expressions"):
             # c @ (vector of expressions): elements may carry constants
@@ -885,7 +896,12 @@ def _extract_all_coefficients_impl(
         result: Output array to accumulate coefficients into.
         multiplier: Current coefficient multiplier from parent expressions.
     """
-    from optyx.core.vectors import LinearCombination, VectorSum, VectorVariable
+    from optyx.core.vectors import (
+        LinearCombination,
+        VectorPowerSum,
+        VectorSum,
+        VectorVariable,
+    )
 
     # Constant - no variable coefficients
     if isinstance(expr, Constant):
@@ -904,6 +920,15 @@ def _extract_all_coefficients_impl(
             idx = var_index.get(var.name)
             if idx is not None:
                 result[idx] += multiplier
+        return
+
+    # VectorPowerSum is linear only as sum(x ** 1) (= sum(x)) or sum(x ** 0) (constant)
+    if isinstance(expr, VectorPowerSum):
+        if expr.power == 1:
+            for var in expr.vector._variables:
+                idx = var_index.get(var.name)
+                if idx is not None:
+                    result[idx] += multiplier
         return
 
     # LinearCombination: c @ x - coefficient is c[i] * multiplier
